@@ -22,6 +22,7 @@ typedef struct {
 typedef struct {
     uint64_t looping_start_time;
     uint64_t idle_time;
+    uint64_t last_time_called;              // Last time the context finished receiving events (per-context: contexts loop on different threads)
     uint64_t recv_msgs;
     size_t running_modules;
 } ctx_stats_t;
